@@ -133,6 +133,17 @@ def build(core, v, name, node, mode, reference=None):
     m.msh.msh_12 = v
     # Message() stamps MSH-7 with now() as a single component; give it a value conforming to the version's own TS rows
     m.msh.msh_7 = structref.field_required_text(v, [r for r in tables.segments(v)['MSH'] if r.num == 7][0])
+    if True:
+        # a locally defined segment whose fields are typed with base datatypes that only some versions have: part of a
+        # conforming instance (Z content is allowed anywhere), validated in the message's own version
+        z = m.add_segment('ZV1')
+        k = 0
+        for dt in ('TN', 'DTM', 'GTS', 'SNM', 'TS', 'ST'):
+            if dt in tables.base_datatypes(v):
+                k += 1
+                f = core.Field('ZV1_%d' % k, datatype=dt, version=v)
+                f.value = gen.witness(v, dt)
+                z.add(f)
     return m, placed
 
 
@@ -423,7 +434,12 @@ def run_structures(spec, rec):
     for j, name in enumerate(mine):
         having = [v for v in vs if name in tables.messages(v)]
         todo.extend((name, v) for v in (having[::-1] if j % 2 else having))
+    import hl7apy
+    base_default = hl7apy.get_default_version()
     for name, v in todo:
+        # the process-wide default version is not an input of validate(): it is set as far from the message's own version as
+        # the library allows
+        hl7apy.set_default_version(vs[0] if tables.versions().index(v) >= len(vs) // 2 else vs[-1])
         msgs = tables.messages(v)
         rec.seen('versions', v)
         node = msgs[name]
@@ -458,6 +474,7 @@ def run_structures(spec, rec):
                   reference=prof)
         if rec.counters.get('structures_used', 0) <= 1:
             rec.sample({'version': v, 'structure': name, 'modes': spec['modes'], 'mutations': list(MUTATIONS)})
+    hl7apy.set_default_version(base_default)
     drain(rec, {'structure': 'any'})
 
 
